@@ -144,6 +144,7 @@ class Incarnation:
         self.batch_objs: dict = {}
         self.vf_objs: dict = {}  # op id -> list as returned by lcm / loaded
         self.vf_np_objs: dict = {}
+        self.vf_np_src: dict = {}  # caller-owned value list -> id of the operation whose arrays it currently holds
         self.store: dict = dict(plan.get("store") or {})
         self.prefetched: dict = {}  # op id -> params object built right after the previous call of a tight loop
         self.kept: list = []  # (op id, object, digest fn) results kept alive to re-digest later
@@ -586,6 +587,11 @@ class Incarnation:
                 if sid not in self.vf_objs:
                     raise _Skip(f"value arrays of op {sid} are not available")
                 self.vf_np_objs[key] = [np.array(a) for a in self.vf_objs[sid]]
+                self.vf_np_src[key] = sid
+            if self.vf_np_src.get(key) != sid:
+                # the refill that should have put the arrays of op sid into the caller's list was skipped (its
+                # source operation had failed): the caller has no such arrays, the call does not take place
+                raise _Skip(f"caller-owned value list holds the arrays of op {self.vf_np_src.get(key)}, not of op {sid}")
             return self.vf_np_objs[key]
         if sid not in self.vf_objs:
             raise _Skip(f"value arrays of op {sid} are not available")
@@ -694,6 +700,7 @@ class Incarnation:
                     lst[i][...] = a
                 else:
                     lst[i] = a.copy()
+            self.vf_np_src[key] = op["to"]
         rec["mutated"] = [what, key]
 
     def _overwrite_params(self, obj, vals, leaf, refs=None, arr_dtype="float64"):
